@@ -8,5 +8,5 @@ CONSTANTS
   MaxSteps = 4
   MaxUpload = 9
   SniffLen = 3
-INVARIANTS SessionAgrees HistoryIndependent NothingRemembered UploadAgreesMC
+INVARIANTS SessionAgrees HistoryIndependent NothingRemembered UploadAgreesMC FormAgreesMC PiecesIntactMC
 CHECK_DEADLOCK FALSE
